@@ -47,6 +47,15 @@ class CallMixin:
             raise Unsupported(f"super().{node.func.attr}: no base class of {cname} defines it (line {line})")
         if isinstance(node.func, ast.Attribute) and node.func.attr == "join" \
                 and isinstance(node.func.value, ast.Constant) and isinstance(node.func.value.value, str):
+            a0 = node.args[0] if len(node.args) == 1 else None
+            if isinstance(a0, ast.BinOp) and isinstance(a0.op, ast.Mult) and isinstance(a0.left, ast.List) \
+                    and len(a0.left.elts) == 1 and isinstance(a0.left.elts[0], ast.Constant) \
+                    and isinstance(a0.left.elts[0].value, str):
+                # "sep".join(["c"] * n): n copies of a constant, joined - a function of n (e.g. SQL placeholders)
+                n_ = self.coerce(self.evv(a0.right), T.INT, line)
+                f_ = self.w.func(f"join_repeat<{node.func.value.value!r},{a0.left.elts[0].value!r}>", z3.IntSort(),
+                                 self.w.StrSort)
+                return SV(f_(n_.term), T.STR)
             # "sep".join(<iterable>): message text; its content is opaque and the argument is not evaluated
             # (assumed: a pure iterable of strings - anything else would be a TypeError in CPython)
             return SV(self.w.fresh(T.STR, "joined"), T.STR)
@@ -905,7 +914,44 @@ class CallMixin:
         if fn.is_lambda:
             with self.scope(dict(zip(fn.params, [self._bindable(a) for a in args])), fn.env):
                 return self.ev(fn.body)
-        raise Unsupported("call of nested def")
+        # a nested def: its body runs in place, in the environment it closes over (captured names are the same
+        # cells, so `clauses.append(...)` inside the helper is seen by the enclosing function) plus its parameters.
+        # Rebinding a captured name (nonlocal) is not supported: the assignment would stay local, as in Python
+        # without a `nonlocal` declaration.
+        from .symex import Frame
+        if len(self.frames) > 12:
+            raise Unsupported("inlining depth")
+        bound = {}
+        pos = list(fn.params)
+        if len(args) > len(pos):
+            raise Unsupported(f"nested def called with too many positional arguments (line {line})")
+        for nme, v in zip(pos, args):
+            bound[nme] = v
+        for k_, v in kwargs.items():
+            if k_ not in fn.params and k_ not in fn.defaults:
+                raise Unsupported(f"nested def has no parameter '{k_}' (line {line})")
+            bound[k_] = v
+        saved_env = self.st.env
+        self.st.env = dict(fn.env)
+        self.frames.append(Frame(fn.module, "<nested def>"))
+        try:
+            for nme, dnode in fn.defaults.items():
+                if nme not in bound:
+                    bound[nme] = self.ev(dnode)
+            missing = [p_ for p_ in fn.params if p_ not in bound]
+            if missing:
+                raise Unsupported(f"nested def called without argument(s) {missing} (line {line})")
+            for k_, v in bound.items():
+                self.assign_name(k_, v, line)
+            try:
+                self.exec_block(fn.body)
+                ret = SV(None, T.NONE)
+            except ReturnSignal as r:
+                ret = r.value
+            return ret
+        finally:
+            self.frames.pop()
+            self.st.env = saved_env
 
     # ------------------------------------------------------------ contracts
     def ret_type(self, fi):
